@@ -27,9 +27,12 @@ fn main() {
         feedback::Accumulation::Mean,
     );
     net.maxpool((2, 2), (1, 1));
-    net.dense(2, activation::Activation::Tanh, true, if variant % 2 == 1 { Some(0.5) } else { None });
+    net.dense(4, activation::Activation::Tanh, true, if variant % 2 == 1 { Some(0.5) } else { None });
     net.dense(2, activation::Activation::Linear, true, None);
+    // two connections sharing their source (the order in which their gradients are added must
+    // not depend on the hash state of the run)
     net.connect(3, 3);
+    net.connect(3, 4);
     // fixed weights
     let mut salt = 1 + variant;
     for layer in net.layers.iter_mut() {
